@@ -346,6 +346,24 @@ class SymRow:
     def __lt__(self, other):
         return self._cmp(other, lambda a, b: a < b)
 
+    def __ge__(self, other):
+        return self._cmp(other, lambda a, b: a >= b)
+
+    def __gt__(self, other):
+        return self._cmp(other, lambda a, b: a > b)
+
+    def __eq__(self, other):
+        if not isinstance(other, SymMat):
+            return NotImplemented
+        return self._cmp(other, lambda a, b: a == b)
+
+    def __ne__(self, other):
+        if not isinstance(other, SymMat):
+            return NotImplemented
+        return self._cmp(other, lambda a, b: a != b)
+
+    __hash__ = None
+
     def __len__(self):
         return len(self.vals)
 
@@ -379,6 +397,37 @@ class SymMat:
         if idx.ndim == 0:
             return self.rows[int(idx)]
         return SymMat([self.rows[int(i)] for i in idx])
+
+    # matrix (op) row: the reflected form of SymRow (op') matrix, and matrix (op) matrix elementwise
+    def _cmp(self, other, op):
+        if isinstance(other, SymRow):
+            out = _np.zeros(self.shape, dtype=bool)
+            for i, r in enumerate(self.rows):
+                for j, v in enumerate(r.vals):
+                    out[i, j] = True if op(v, other.vals[j]) else False
+            return out
+        if isinstance(other, SymMat):
+            assert other.shape == self.shape
+            out = _np.zeros(self.shape, dtype=bool)
+            for i, r in enumerate(self.rows):
+                for j, v in enumerate(r.vals):
+                    out[i, j] = True if op(v, other.rows[i].vals[j]) else False
+            return out
+        return NotImplemented
+
+    def __le__(self, other):
+        return self._cmp(other, lambda a, b: a <= b)
+
+    def __lt__(self, other):
+        return self._cmp(other, lambda a, b: a < b)
+
+    def __ge__(self, other):
+        return self._cmp(other, lambda a, b: a >= b)
+
+    def __gt__(self, other):
+        return self._cmp(other, lambda a, b: a > b)
+
+    __hash__ = None
 
     def __mul__(self, w):
         w = _np.asarray(w)
